@@ -244,3 +244,8 @@ pub use crate::yaml::light_verif_emit_hooks as yaml_emit;
 pub use crate::json::light::{
     verif_decode_escapes, verif_nested_number_span, verif_parse_hex4, JsonNumber, JsonString,
 };
+
+// ---- C06: JSON navigation text-level kernels
+pub use crate::json::light::{
+    verif_string_at, verif_string_end,
+};
